@@ -573,3 +573,32 @@ def gen_core_doc(rng, **kw):
     """A document restricted to what every claimed check treats as the strict core."""
     F = swarm_features(rng, combining_sigs=False, quote_cells=False, uls_cells=False, notelike_nonkern=False)
     return gen_doc(rng, F, **kw)
+
+
+def gen_long_doc(rng, rows=1100):
+    """A long score (more rows than Python's default recursion limit): one or two **kern spines of plain notes and rests with a
+    barline every few rows. Cheap to generate; used rarely, to reach code whose depth grows with the length of the score."""
+    nk = rng.choice([1, 1, 2])
+    headers = [KERN] * nk
+    F = dict(DEFAULT_FEATURES, accidentals=False, chords=False, signifiers=rng.random() < 0.5, combining_sigs=False, dotted=False,
+             rational=False, grace=False)
+    out = [Row('header', [Cell(KERN, 'header', i) for i in range(nk)]),
+           Row('interp', [Cell('*clefG2', 'clef', i) for i in range(nk)]),
+           Row('interp', [Cell('*M4/4', 'meter', i) for i in range(nk)])]
+    m = 1
+    for r in range(rows):
+        if r % 5 == 0:
+            out.append(Row('bar', [Cell('=' + str(m), 'bar', i, {'hidden': False}) for i in range(nk)]))
+            m += 1
+        else:
+            cells = []
+            for i in range(nk):
+                if rng.random() < 0.12:
+                    t, meta = gen_rest(rng, F)
+                    cells.append(Cell(t, 'rest', i, meta))
+                else:
+                    t, meta = gen_note(rng, F, octave_range=(3, 5))
+                    cells.append(Cell(t, 'note', i, meta))
+            out.append(Row('data', cells))
+    out.append(Row('term', [Cell('*-', 'op', i) for i in range(nk)]))
+    return Doc(headers, out, dict(F, long=True))
